@@ -99,6 +99,40 @@ static void body(Env& env, const std::string& stage, int n, int L, int K, int ma
   env.parallel(o);
 }
 
+
+// ---- structured family of LARGER systems (17..40 states) that crosses the size thresholds hidden in the data structures with their REAL constants
+// (BinaryRelation row capacity 16 / next power of two, SharedCounter rows of 31, SmartSet): every system built from one edge template per label,
+// x a few partitions / block preorders x EVERY output size 1..n.  Exhaustive over this finite family, no sampling.
+static std::vector<Edge> templ(int t, int a, int n) { std::vector<Edge> E; switch (t) { case 0: break; case 1: for (int q = 0; q < n; q++) E.push_back({q, a, 0}); break; case 2: for (int q = 0; q < n; q++) E.push_back({q, a, n - 1}); break;
+    case 3: for (int q = 1; q < n; q++) E.push_back({q, a, 16 % n}); break; case 4: for (int q = 0; q + 1 < n; q++) E.push_back({q, a, q + 1}); break; case 5: for (int q = 0; q < n; q++) E.push_back({q, a, q}); break;
+    case 6: for (int q = 1; q < n; q += 2) E.push_back({q, a, 0}); break; case 7: for (int q = 0; q < n; q++) E.push_back({q, a, (q * 7 + 3) % n}); break; default: for (int q = 0; q < n; q++) { E.push_back({q, a, (q + 1) % n}); E.push_back({q, a, (q + 2) % n}); } } return E; }
+static void family(Env& env, const std::string& stage, std::vector<int> sizes) {
+  const int NT = 9; struct Case { int n, t0, t1, part, pre; }; auto cases = std::make_shared<std::vector<Case>>();
+  for (int n : sizes) for (int t0 = 0; t0 < NT; t0++) for (int t1 = 0; t1 < NT; t1++) for (int part = 0; part < 3; part++) for (int pre = 0; pre < (part == 0 ? 1 : 4); pre++) cases->push_back({n, t0, t1, part, pre});
+  env.noteNum(stage + ".systems_x_partitions", cases->size());
+  ParallelOpts o; o.stage = stage; o.size = cases->size(); o.block = 4; o.caseTimeout = 120;
+  o.describe = [cases](uint64_t i) { const Case& k = (*cases)[i]; return "n=" + std::to_string(k.n) + " template(label0)=" + std::to_string(k.t0) + " template(label1)=" + std::to_string(k.t1) + " partition#" + std::to_string(k.part) + " preorder#" + std::to_string(k.pre); };
+  o.run = [cases](uint64_t idx, Ctx& c) { const Case& k = (*cases)[idx]; int n = k.n; std::vector<Edge> E = templ(k.t0, 0, n); { auto e1 = templ(k.t1, 1, n); E.insert(E.end(), e1.begin(), e1.end()); }
+    // partitions: 0 = one block; 1 = even/odd; 2 = {state 16 % n} alone.  preorders on 2 blocks: the 4 reflexive transitive ones
+    std::vector<int> blk(n, 0); int m = 1; if (k.part == 1) { for (int q = 0; q < n; q++) blk[q] = q & 1; m = 2; } else if (k.part == 2) { blk[16 % n] = 1; m = 2; }
+    Mat R(m, std::vector<bool>(m, false)); for (int i = 0; i < m; i++) R[i][i] = true; if (m == 2) { if (k.pre & 1) R[0][1] = true; if (k.pre & 2) R[1][0] = true; }
+    Mat R0(n, std::vector<bool>(n)); for (int q = 0; q < n; q++) for (int r = 0; r < n; r++) R0[q][r] = R[blk[q]][blk[r]]; Mat S = refSim(n, E, R0);
+    std::vector<std::vector<size_t>> part(m); for (int q = 0; q < n; q++) part[blk[q]].push_back(q); BinaryRelation rel(m); for (int i = 0; i < m; i++) for (int j = 0; j < m; j++) rel.set(i, j, R[i][j]);
+    std::string what = "n=" + std::to_string(n) + " label0 template " + std::to_string(k.t0) + ", label1 template " + std::to_string(k.t1) + ", partition#" + std::to_string(k.part) + ", block preorder#" + std::to_string(k.pre);
+    if (c.wantSample() && idx % 37 == 5) c.sample(what);
+    for (int out = 1; out <= n; out++) { c.evals(); c.nontrivial(); c.count(out == 16 ? "output_size_16" : out > 16 ? "output_size_above_16" : "output_size_below_16");
+      try { ExplicitLTS l(n); for (auto& e : E) l.addTransition(e.q, e.a, e.r); l.init(); BinaryRelation res = l.computeSimulation(part, rel, (size_t)out);
+        bool bad = (int)res.size() != out; std::string diff; if (!bad) for (int q = 0; q < out && !bad; q++) for (int r = 0; r < out; r++) if (res.get(q, r) != S[q][r]) { bad = true; diff = "entry (" + std::to_string(q) + "," + std::to_string(r) + ") is " + std::to_string(res.get(q, r)) + ", expected " + std::to_string(S[q][r]); break; }
+        if (bad) { c.viol("computeSimulation(partition,relation,size)/large family", (int)res.size() != out ? "wrong_result_size" : "relation_differs", {"output_size_" + std::to_string(out)}, what + " outputSize=" + std::to_string(out) + ": " + diff, (uint64_t)n); break; }
+        if (k.part == 0) { ExplicitLTS l2(n); for (auto& e : E) l2.addTransition(e.q, e.a, e.r); l2.init(); BinaryRelation r2 = l2.computeSimulation((size_t)out); bool b2 = (int)r2.size() != out; if (!b2) for (int q = 0; q < out && !b2; q++) for (int r = 0; r < out; r++) if (r2.get(q, r) != S[q][r]) { b2 = true; break; }
+          if (b2) { c.viol("computeSimulation(size)/large family", "relation_differs", {"output_size_" + std::to_string(out)}, what + " outputSize=" + std::to_string(out), (uint64_t)n); break; } }
+      } catch (std::exception& e) { c.viol("computeSimulation/large family", "exception", {}, what + " " + e.what(), (uint64_t)n); break; } } };
+  env.parallel(o);
+}
+static Register f1("c16.family.n17n20", "C16", "structured family: 17 and 20 states, 2 labels x 9 edge templates each x 3 partitions x block preorders x EVERY output size (crosses the capacity-16 threshold of BinaryRelation)", [](Env& e) { family(e, "c16.family.n17n20", {17, 20}); });
+static Register f2("c16.family.n33n40", "C16", "structured family: 33 and 40 states (crosses 32-entry thresholds: counter rows of 31, relation capacity 32)", [](Env& e) { family(e, "c16.family.n33n40", {33, 40}); });
+static Register f3("c16.family.n65", "C16", "structured family: 65 states", [](Env& e) { family(e, "c16.family.n65", {65}); });
+
 #define REG(var, name, n, L, K, mb, dup, txt) static Register var(name, "C16", txt, [](Env& e) { body(e, name, n, L, K, mb, dup); });
 REG(r1, "c16.n3l2k4", 3, 2, 4, 3, 3, "LTS(3 states,2 labels,<=4 edges; <=3 edges also with one parallel edge) x all partitions x all block preorders x all output sizes")
 REG(r2, "c16.n3l2k5", 3, 2, 5, 3, 3, "LTS(3,2,<=5 edges; parallel edges up to 3) x all partitions x all block preorders x all output sizes")
